@@ -1688,6 +1688,81 @@ func randomCase(r *hx.Rng, n int) Case {
 	return c
 }
 
+// largeOp: one operation whose ARGUMENT LIST is long (the ordinary generators keep every list at 0..4 entries):
+// bulk reads of 90..320 keys, batches of 60..180 operations, puts with 20..70 tags, configurations with 20..60 names.
+// Code that treats long requests differently (chunking, paging, size limits) is only reached this way.
+func largeOp(r *hx.Rng) Op {
+	k3 := func() int { return 1 + r.Intn(3) }
+
+	switch r.Intn(6) {
+	case 0, 1, 2:
+		n := 90 + r.Intn(231)
+		ks := make([]int, n)
+
+		for i := range ks {
+			ks[i] = k3()
+		}
+
+		return Op{Kind: "bulk", Ks: ks}
+	case 3:
+		n := 60 + r.Intn(121)
+		b := make([]BOp, n)
+
+		for i := range b {
+			b[i] = BOp{K: k3()}
+			if r.Intn(4) > 0 {
+				b[i].V = 1 + r.Intn(3)
+				b[i].T = tagSets[r.Intn(len(tagSets))]
+			}
+		}
+
+		return Op{Kind: "batch", B: b}
+	case 4:
+		n := 20 + r.Intn(51)
+		t := make([]Tag, n)
+
+		for i := range t {
+			t[i] = Tag{1 + r.Intn(3), r.Intn(4)}
+		}
+
+		return Op{Kind: "put", K: k3(), V: 1 + r.Intn(3), T: t}
+	}
+
+	n := 20 + r.Intn(41)
+	ns := make([]int, n)
+
+	for i := range ns {
+		ns[i] = 1 + r.Intn(3)
+	}
+
+	return Op{Kind: "setcfg", N: ns}
+}
+
+// largeCase: a short ordinary history with 1..2 large operations in it, in any configuration (also REST)
+func largeCase(r *hx.Rng) Case {
+	var c Case
+
+	rest := r.Intn(3) == 0
+	if rest {
+		c = randomRestCase(r, 3+r.Intn(5))
+	} else {
+		c = randomCase(r, 3+r.Intn(5))
+	}
+
+	km, nm, vm := randMaps(r)
+	if rest {
+		km, nm, vm = restMaps(r)
+	}
+
+	for i, n := 0, 1+r.Intn(2); i < n; i++ {
+		o := remap([]Op{largeOp(r)}, km, nm, vm)[0]
+		at := 1 + r.Intn(len(c.Ops))
+		c.Ops = append(c.Ops[:at:at], append([]Op{o}, c.Ops[at:]...)...)
+	}
+
+	return c
+}
+
 func corpus(dir string, tr *hx.Trace) {
 	files, _ := filepath.Glob(filepath.Join(dir, "*.json"))
 	sort.Strings(files)
@@ -1825,6 +1900,10 @@ func main() {
 	for j := 0; j < nRandom; j++ {
 		r := rng.Fork(uint64(j))
 		runCase("random", randomCase(r, 4+r.Intn(22)), tr, true)
+	}
+
+	for j := 0; j < nRandom/30; j++ {
+		runCase("random-large", largeCase(rng.Fork(uint64(11_000_000+j))), tr, true)
 	}
 
 	for j := 0; j < nRandom/5; j++ {
